@@ -77,21 +77,10 @@ DRIVER = "DriverC10.lean"
 # Genuine defects found by this check and not (yet) listed in /verif/known_findings.json.
 # Four earlier ones (selection by position, Triangular rule on lower triangular data, complex Triangular, unconjugated
 # Rayleigh quotient) are FIXED in /repo (commits bb973bc, d3bb5ef, 3dd8195 and the select_by_magnitude commit).
-PROVISIONAL_KNOWN = {
-    "lobpcg-drops-smallest": {
-        "what": "eig(A, k, which, LOBPCG()): cola/linalg/eig/lobpcg.py starts scipy's lobpcg(largest=True) with a block of "
-                "min(n - 1, max_iters) columns, so only the n - 1 algebraically LARGEST eigenpairs are ever computed and "
-                "select_by_magnitude (cola/linalg/eig/eigs.py, LOBPCG rule) selects among those: the algebraically smallest "
-                "eigenvalue can never be returned -- 'SM' on a positive definite operator misses the smallest eigenvalue, 'LM' "
-                "misses a dominant negative one, k = n returns n - 1 pairs (Lean: hypothesis droppedNotWanted / enoughComputed of "
-                "C10_lobpcg_partial, witness C10_lobpcg_clause_needed)",
-        "witness": "cola.linalg.eig(cola.SelfAdjoint(cola.ops.Dense(np.diag([1., 2., 3., 4.]))), 1, 'SM', LOBPCG()) returns [2.] "
-                   "(smallest-magnitude eigenvalue: 1); with np.diag([-5., 1., 2., 3.]), k=1, 'LM' it returns [3.] (largest "
-                   "magnitude: -5); with k=4 three pairs come back",
-        "site": "cola/linalg/eig/lobpcg.py: k = min(A.shape[0] - 1, max_iters); lobpcg_sp(A2, X, largest=largest) / "
-                "cola/linalg/eig/eigs.py: eig(A, k, which, alg: LOBPCG)",
-    },
-}
+# The finding `lobpcg-drops-smallest` (eig's LOBPCG rule only sees the n - 1 algebraically largest pairs lobpcg computes;
+# Lean: hypotheses enoughComputed / droppedNotWanted of C10_lobpcg_partial, witness C10_lobpcg_clause_needed) is RECORDED in
+# /verif/known_findings.json and matched through common.known_clauses / common.known_finding; nothing is provisional.
+PROVISIONAL_KNOWN = {}
 LOBPCG_TOL = 1e-4     # lobpcg works in single precision (float32 / complex64)
 
 RES_TOL = 1e-6
